@@ -3,20 +3,30 @@ import PgBifrost.Model.Util
 namespace PgBifrost.Driver.ConnManager
 open PgBifrost.ConnManager
 
-abbrev DState := Conn
+/-- the manager's connection, and whether the live one was opened for replication (START_REPLICATION sent) -/
+structure DState where
+  c : Conn := .none
+  repl : Bool := false
+deriving Inhabited
 
 def showOut : Out → String
   | .start l => s!"start:{l}" | .dial => "dial" | .reuse => "reuse" | .ok => "ok"
 
 def handle (st : DState) (args : List String) : DState × String :=
   match args with
-  | ["reset"] => (.none, "ok")
+  | ["reset"] => ({}, "ok")
   | ["repl", l] => match l.toNat? with
-    | some l => let (c, o) := step st (.getRepl l); (c, showOut o)
+    | some l =>
+      let (c, o) := step st.c (.getRepl l)
+      ({ c := c, repl := match o with | .start _ => true | _ => st.repl }, showOut o)
     | none => (st, "bad-op")
-  | ["plain"] => let (c, o) := step st .getPlain; (c, showOut o)
-  | ["close"] => let (c, o) := step st .close; (c, showOut o)
-  | ["drop"] => let (c, o) := step st .drop; (c, showOut o)
+  | ["plain"] =>
+    let (c, o) := step st.c .getPlain
+    ({ c := c, repl := match o with | .dial => false | _ => st.repl }, showOut o)
+  | ["close"] => let (c, o) := step st.c .close; ({ c := c, repl := false }, showOut o)
+  | ["drop"] => let (c, o) := step st.c .drop; ({ st with c := c }, showOut o)
+  -- a status update accepted on a live replication connection is on the wire (C18: no further read is needed)
+  | ["status", _] => (st, if st.c = .live && st.repl then "sent:1" else "noconn")
   | _ => (st, "bad-op")
 
 end PgBifrost.Driver.ConnManager
